@@ -8,7 +8,11 @@ PROP = {'gen': [],
  'props_module': 'Props.C13',
  'corr_check': 'SNT.Corr.C13Corr.c13_check (models Image/KDTree.v, Image/Octree.v, Image/Quantize.v vs '
                'surf_n_term::image::{KDTree, ColorPalette, OcTree} and Image::quantize)',
- 'level_text': 'Coq theorems over executable models of the k-d tree, the octree and Image::quantize.',
+ 'level_text': 'Coq theorems over executable models of KDTree, OcTree, ColorPalette::from_image and Image::quantize: nearest-colour '
+               'search returns a minimal-distance entry for every palette (any length >= 1, duplicates) and every query; for every '
+               'non-empty image and k >= 1 palette extraction terminates (explicit fuel bound, stale caches included) with 1..max(k,8) '
+               'colours, every index is valid for any dithering error, undithered pixels map to nearest entries, and images whose '
+               'colours fit are reproduced exactly with and without dithering. Models tied to the code by exact differential runs.',
  'level_note': 'Trusted: Coq kernel + vm_compute; hand-written models validated by the correspondence run; '
                'rasterize blend_over enters as an oracle (effective pixels). No axioms.',
  'technique': 'Coq proof (k-d invariant, octree measure/invariants, induction over pixels) + model/implementation correspondence',
